@@ -49,3 +49,31 @@ kani_unit("air_divisor", "winter-air", "air/src/air/divisor.rs", "kani/air_divis
       bounded="n = 2^3..2^8; get_trace_domain_value_at abstracted by an injective encoding of (n, step)"),
     H("air_divisor_canary_must_fail", ["C16"], [], "false claim: first exemption of (8, 2) is step 7", canary=True),
 ])
+
+kani_unit("fri_proof", "winter-fri", "fri/src/proof.rs", "kani/fri_proof.rs", "proof", [
+    H("fri_proof_header_r8_k0_bounded", ["C06", "C03", "C12"], ["FriProof::read_from", "FriProof::write_into", "FriProof::num_partitions", "FriProof::parse_remainder"],
+      "zero-layer proof: never panics (2^k of the partition byte must not overflow); re-encodes to the same bytes; parse_remainder succeeds only on a whole power-of-two number of elements and consumes everything",
+      bounded="0 layers, 8-byte remainder, partition byte 0; remainder content symbolic"),
+    H("fri_proof_header_r8_k63_bounded", ["C06", "C03", "C12"], ["FriProof::read_from", "FriProof::write_into", "FriProof::num_partitions", "FriProof::parse_remainder"],
+      "zero-layer proof: never panics (2^k of the partition byte must not overflow); re-encodes to the same bytes; parse_remainder succeeds only on a whole power-of-two number of elements and consumes everything",
+      bounded="0 layers, 8-byte remainder, partition byte 63; remainder content symbolic"),
+    H("fri_proof_header_r8_k64_bounded", ["C06", "C03", "C12"], ["FriProof::read_from", "FriProof::write_into", "FriProof::num_partitions", "FriProof::parse_remainder"],
+      "zero-layer proof: never panics (2^k of the partition byte must not overflow); re-encodes to the same bytes; parse_remainder succeeds only on a whole power-of-two number of elements and consumes everything",
+      bounded="0 layers, 8-byte remainder, partition byte 64; remainder content symbolic"),
+    H("fri_proof_header_r8_k255_bounded", ["C06", "C03", "C12"], ["FriProof::read_from", "FriProof::write_into", "FriProof::num_partitions", "FriProof::parse_remainder"],
+      "zero-layer proof: never panics (2^k of the partition byte must not overflow); re-encodes to the same bytes; parse_remainder succeeds only on a whole power-of-two number of elements and consumes everything",
+      bounded="0 layers, 8-byte remainder, partition byte 255; remainder content symbolic"),
+    H("fri_proof_header_r9_bounded", ["C06", "C03", "C12"], ["FriProof::read_from", "FriProof::write_into", "FriProof::num_partitions", "FriProof::parse_remainder"],
+      "zero-layer proof: never panics (2^k of the partition byte must not overflow); re-encodes to the same bytes; parse_remainder succeeds only on a whole power-of-two number of elements and consumes everything",
+      bounded="0 layers, 9-byte remainder; remainder content symbolic"),
+    H("fri_proof_header_r0_bounded", ["C06", "C03", "C12"], ["FriProof::read_from", "FriProof::write_into", "FriProof::num_partitions", "FriProof::parse_remainder"],
+      "zero-layer proof: never panics (2^k of the partition byte must not overflow); re-encodes to the same bytes; parse_remainder succeeds only on a whole power-of-two number of elements and consumes everything",
+      bounded="0 layers, empty remainder; remainder content symbolic"),
+    H("fri_proof_layer_bounded", ["C06", "C03"], ["FriProofLayer::read_from", "FriProofLayer::write_into", "FriProofLayer::parse"],
+      "one query of two elements, 2 path bytes: never panics; Ok only if every byte is consumed; the Merkle leaf is recomputed as the hash of the opened values",
+      bounded="16 value bytes, 2 path bytes, folding factor 2, domain 8", timeout=1200, tier="thorough"),
+    H("fri_proof_canary_must_fail", ["C06", "C03", "C12"], [], "false claim: FriProof::read_from always fails", canary=True),
+])
+for u in UNITS:
+    if u["unit"] == "fri_proof":
+        u["trusted"] = [DBL]
